@@ -722,6 +722,10 @@ func (fa *FnAnalysis) transfer(st *State, in ssa.Instruction) {
 				return
 			}
 		}
+		if isVarargsFill(x) {
+			// filling a fresh argument array that is only ever sliced: no tracked cell can alias it
+			return
+		}
 		fa.bump(st, in)
 		loc := e.eff.classifyAddr(x.Addr)
 		fa.killHeap(st, []string{loc})
@@ -805,6 +809,7 @@ func (fa *FnAnalysis) transferCall(st *State, in ssa.Instruction, c *ssa.CallCom
 	if e.p.inPkg(callee) {
 		if v != nil {
 			st.cep[v] = st.epoch
+			st.add(aDID, e.tt.mk(Term{K: "V", V: v}), true)
 		}
 		if !e.eff.pure(callee) {
 			fa.bump(st, in)
@@ -823,6 +828,35 @@ func (fa *FnAnalysis) transferCall(st *State, in ssa.Instruction, c *ssa.CallCom
 		st.heap = map[string]heapCell{}
 	}
 	fa.externalPost(st, v, name)
+}
+
+// isVarargsFill: a store into an element of a freshly allocated array whose
+// element addresses are only stored to and which is otherwise only sliced
+// (the `[]any{...}` / variadic argument pattern).
+func isVarargsFill(st *ssa.Store) bool {
+	ia, ok := st.Addr.(*ssa.IndexAddr)
+	if !ok {
+		return false
+	}
+	al, ok := ia.X.(*ssa.Alloc)
+	if !ok {
+		return false
+	}
+	for _, r := range *al.Referrers() {
+		switch x := r.(type) {
+		case *ssa.IndexAddr:
+			for _, u := range *x.Referrers() {
+				if s2, ok := u.(*ssa.Store); !ok || s2.Addr != x {
+					return false
+				}
+			}
+		case *ssa.Slice:
+		case *ssa.DebugRef:
+		default:
+			return false
+		}
+	}
+	return true
 }
 
 // killHeap drops forwarded cells that a write to one of the given abstract
